@@ -217,6 +217,8 @@ class BufGen:
         ast = {"body": self.stmts(self.p["top_stmts"], 0, [], False), "views": bool(self.p.get("views")), "streams": bool(self.p.get("streams"))}
         if self.p.get("views") and self.p.get("nested_views"):
             ast["nested_views"] = True
+        if self.p.get("views") and self.p.get("reinterpret"):
+            ast["view_op"] = "reinterpret_cast"
         if self.p.get("helper"):
             # a private function with a body of its own (its own local buffers), called from @f like any other function
             hb = self.stmts(self.r.randint(1, 4), 0, [], False)
@@ -288,6 +290,14 @@ ARGS = ["%n0", "%n1", "%n2", "%p0", "%p1"]
 ARG_TYPES = ["index", "index", "index", "i1", "i1"]
 
 
+def view_text(ast, w, b, off):
+    if ast.get("view_op") == "reinterpret_cast":
+        # the same two elements named through a reinterpret_cast of the allocation instead of a subview
+        return (f'{w} = "memref.reinterpret_cast"({b}) <{{static_offsets = array<i64: {off}>, static_sizes = array<i64: 2>, static_strides = array<i64: 1>, '
+                f'operandSegmentSizes = array<i32: 1, 0, 0, 0>}}> : ({T1}) -> {buf_type(w)}')
+    return f"{w} = memref.subview {b}[{off}][2][1] : {T1} to {buf_type(w)}"
+
+
 def emit(ast) -> str:
     L: list[str] = []
 
@@ -327,7 +337,7 @@ def emit(ast) -> str:
                 if ast.get("views"):
                     for w, (b, off) in VIEWS.items():
                         if b == s["buf"]:
-                            e(ind, f"{w} = memref.subview {b}[{off}][2][1] : {T1} to {buf_type(w)}")
+                            e(ind, view_text(ast, w, b, off))
                             nested_of(ind, w)
             elif k == "for" and s.get("rot"):
                 cur, nxt, a, b = s["rot"]
@@ -394,7 +404,7 @@ def emit(ast) -> str:
     if ast.get("views"):
         for w, (b, off) in VIEWS.items():
             if b not in late:
-                e(2, f"{w} = memref.subview {b}[{off}][2][1] : {T1} to {buf_type(w)}")
+                e(2, view_text(ast, w, b, off))
                 nested_of(2, w)
         if "%s0" not in late:
             e(2, f"%s0 = memref.alloc() {{vsite = 7 : i64}} : {TS1}")
